@@ -459,6 +459,8 @@ Section Reader.
   | FNameA             (* get_name() without origin (TSIG algorithm) *)
   | FRest              (* get_remaining *)
   | FCnt16             (* get_counted_bytes(2); kept with its length prefix *)
+  | FCnt8              (* get_counted_bytes(); kept with its length prefix *)
+  | FRest1             (* get_remaining(), FormError when empty *)
   | FMax16 (m : Z)     (* a 16-bit field whose value the constructor requires to be <= m *)
   | FTxt.              (* one or more <character-string>s up to the end *)
 
@@ -480,11 +482,39 @@ Section Reader.
     else if rdtype =? 16 then Some [FTxt]
     else if rdtype =? 46 then Some [FFix 18; FNameU; FRest]
     else if rdtype =? 250 then Some [FNameA; FFix 8; FCnt16; FFix 2; FMax16 4095; FCnt16]
+    (* SPF NINFO AVC RESINFO WALLET: TXTBase *)
+    else if zmem rdtype [99; 56; 258; 261; 262] then Some [FTxt]
+    (* AFSDB RT: UncompressedDowncasingMX;  RP: two uncompressed names *)
+    else if (rdtype =? 18) || (rdtype =? 21) then Some [FFix 2; FNameU]
+    else if rdtype =? 17 then Some [FNameU; FNameU]
+    (* SSHFP; TLSA SMIMEA; CERT; DNSKEY CDNSKEY; OPENPGPKEY *)
+    else if rdtype =? 44 then Some [FFix 2; FRest]
+    else if (rdtype =? 52) || (rdtype =? 53) then Some [FFix 3; FRest]
+    else if rdtype =? 37 then Some [FFix 5; FRest]
+    else if (rdtype =? 48) || (rdtype =? 60) then Some [FFix 4; FRest]
+    else if rdtype =? 61 then Some [FRest]
+    (* EUI48 EUI64; L32; L64 NID;  HINFO; X25 *)
+    else if rdtype =? 108 then Some [FFix 6]
+    else if rdtype =? 109 then Some [FFix 8]
+    else if rdtype =? 105 then Some [FFix 2; FFix 4]
+    else if (rdtype =? 106) || (rdtype =? 104) then Some [FFix 2; FFix 8]
+    else if rdtype =? 13 then Some [FCnt8; FCnt8]
+    else if rdtype =? 19 then Some [FCnt8]
+    (* NSEC3PARAM; URI *)
+    else if rdtype =? 51 then Some [FFix 4; FCnt8]
+    else if rdtype =? 256 then Some [FFix 4; FRest1]
     else if zmem rdtype any_types then None
     else if rdclass =? cIN then
       if rdtype =? 1 then Some [FFix 4]
       else if rdtype =? 28 then Some [FFix 16]
       else if rdtype =? 33 then Some [FFix 6; FNameC]
+      (* KX; PX; DHCID NSAP *)
+      else if rdtype =? 36 then Some [FFix 2; FNameU]
+      else if rdtype =? 26 then Some [FFix 2; FNameU; FNameU]
+      else if (rdtype =? 49) || (rdtype =? 22) then Some [FRest]
+      (* WKS; NAPTR *)
+      else if rdtype =? 11 then Some [FFix 5; FRest]
+      else if rdtype =? 35 then Some [FFix 4; FCnt8; FCnt8; FCnt8; FNameC]
       else if zmem rdtype in_types then None
       else Some [FRest]
     else if (rdclass =? 3) && (rdtype =? 1) then None     (* dns.rdtypes.CH.A *)
@@ -516,6 +546,13 @@ Section Reader.
         do _ <- rd_bytes endp (cur + 2) (Z.to_nat l);
         do b <- rd_bytes endp cur (2 + Z.to_nat l);
         dec_fields r origin endp (cur + 2 + Z.to_nat l) (PB b :: acc)
+    | FRest1 :: r =>
+        if Nat.eqb (endp - cur) 0 then Lib eFormError
+        else do b <- rd_bytes endp cur (endp - cur); dec_fields r origin endp endp (PB b :: acc)
+    | FCnt8 :: r =>
+        do l <- rd_u8 endp cur;
+        do b <- rd_bytes endp cur (1 + Z.to_nat l);
+        dec_fields r origin endp (cur + 1 + Z.to_nat l) (PB b :: acc)
     | FMax16 mx :: r =>
         do v <- rd_u16 endp cur;
         do b <- rd_bytes endp cur 2;
